@@ -1,4 +1,5 @@
-import Gtree.Lemmas.HeapGrower
+import Gtree.Generated.Heap.Spread
+import Gtree.Lemmas.HeapRepr
 import Gtree.Model.Spread
 /-
   `toFormattedNode` of the source (simple_tree_spreader.go, with `jsonNode.setChild` / `getChild`; `yamlNode` and
